@@ -88,9 +88,13 @@ pub fn install_signal_handlers() {
     }
 }
 
+/// The size guard applies while code under test runs on this thread (a case is registered); the engine's own bookkeeping
+/// - the set of distinct cases grows to tens of megabytes in the thorough tier - is not subject to it.
+fn in_case() -> bool { CASE_NAME.try_with(|c| c.get().0 != 0).unwrap_or(false) }
+
 unsafe impl GlobalAlloc for Counting {
     unsafe fn alloc(&self, l: Layout) -> *mut u8 {
-        if l.size() > OVERSIZE { oversize(l.size()) }
+        if l.size() > OVERSIZE && in_case() { oversize(l.size()) }
         let p = System.alloc(l);
         if !p.is_null() {
             let _ = LIVE.try_with(|c| { let n = c.get() + l.size(); c.set(n); let _ = PEAK.try_with(|p| if n > p.get() { p.set(n) }); });
@@ -102,7 +106,7 @@ unsafe impl GlobalAlloc for Counting {
         let _ = LIVE.try_with(|c| c.set(c.get().saturating_sub(l.size())));
     }
     unsafe fn realloc(&self, p: *mut u8, l: Layout, new: usize) -> *mut u8 {
-        if new > OVERSIZE { oversize(new) }
+        if new > OVERSIZE && in_case() { oversize(new) }
         let q = System.realloc(p, l, new);
         if !q.is_null() {
             let _ = LIVE.try_with(|c| { let n = c.get().saturating_sub(l.size()) + new; c.set(n); let _ = PEAK.try_with(|p| if n > p.get() { p.set(n) }); });
